@@ -140,11 +140,16 @@ def apply_op(t, op, rec=None):
             ot = "array_str"
         if ot and (order or ot in ("tuple", "array_object", "pandas_index")):
             order = as_container(order, ot)
-        if style == "defaults" and op["axis"] == "sample":
-            return t.sort_order(order)
-        if style == "positional":
-            return t.sort_order(order, op["axis"])
-        return t.sort_order(order, axis=op["axis"])
+        given = [str(i) for i in order]
+        try:
+            if style == "defaults" and op["axis"] == "sample":
+                return t.sort_order(order)
+            if style == "positional":
+                return t.sort_order(order, op["axis"])
+            return t.sort_order(order, axis=op["axis"])
+        finally:
+            if rec is not None and [str(i) for i in order] != given:
+                rec["argument_mutated"] = "order"
     if k == "sort":
         if op["f"] == "default":
             if rec is not None:
@@ -191,34 +196,51 @@ def apply_op(t, op, rec=None):
         if style == "numpy-values":
             import numpy as np
             m = {a: np.str_(b) for a, b in m.items()}
-        return t.update_ids(m, axis=op["axis"], strict=op["strict"], inplace=op["inplace"])
+        given = dict(m)
+        try:
+            return t.update_ids(m, axis=op["axis"], strict=op["strict"], inplace=op["inplace"])
+        finally:
+            if rec is not None and (m != given or list(m) != list(given)):
+                rec["argument_mutated"] = "id_map"
     # operations of other properties, used only inside histories
     if k == "filter_keep":
         t.filter(list(op["ids"]), axis=op["axis"], inplace=True)
         return t
     if k == "add_metadata":
-        t.add_metadata({i: {"added": "v-" + i} for i in op["ids"]}, axis=op["axis"])
+        t.add_metadata({i: {op.get("key", "added"): "v-" + i} for i in op["ids"]}, axis=op["axis"])
+        return t
+    if k == "del_metadata":
+        t.del_metadata(keys=list(op["keys"]), axis=op["axis"])
         return t
     raise ValueError(k)
 
 
 def build_chain(case, real=True):
-    """(receiver, bystanders): every table the history went through and every table derived from the receiver
-    (case["derive"]) stays alive as a bystander [(label, table)].  On the real chain (not the twin used for
-    observing) the receiver is optionally read in full in a random accessor order (case["preread"]) and left in a
-    random layout (case["poke"])."""
+    """(receiver, bystanders): every table the history went through, every table derived on the way
+    (history step {"op": "derive", "by": op}: the receiver stays the receiver) and every table derived from the
+    final receiver (case["derive"]) stays alive as a bystander [(label, table, snapshot)].  On the twin chain
+    (real=False) each table is observed when it is created, and again whenever a history step changed that very
+    object in place: the snapshot is what the table must still look like after everything that followed.  On the
+    real chain the receiver is optionally read in full in a random accessor order (case["preread"]) and left
+    in a random layout (case["poke"])."""
     t = build_table(case["spec"], case["route"], case.get("containers"))
-    chain = [("built", t)]
+    live = {}          # id(obj) -> [label, obj, snapshot]
+
+    def note(label, x):
+        ent = live.setdefault(id(x), [label, x, None])
+        if not real:
+            ent[2] = observe(x)[0]
+
+    note("built", t)
     for k, h in enumerate(case["history"]):
-        t = apply_op(t, h)
-        chain.append(("history[%d]:%s" % (k, h["op"]), t))
+        if h["op"] == "derive":
+            note("history[%d]:derived-by-%s" % (k, h["by"]["op"]), apply_op(t, h["by"]))
+        else:
+            t = apply_op(t, h)
+            note("history[%d]:%s" % (k, h["op"]), t)
     for k, d in enumerate(case.get("derive") or []):
-        chain.append(("derived[%d]:%s" % (k, d["op"]), apply_op(t, d)))
-    bystanders, seen = [], {id(t)}
-    for label, x in chain:
-        if id(x) not in seen:
-            seen.add(id(x))
-            bystanders.append((label, x))
+        note("derived[%d]:%s" % (k, d["op"]), apply_op(t, d))
+    bystanders = [tuple(e) for i, e in live.items() if i != id(t)]
     if real and t.shape[0] and t.shape[1]:
         if case.get("preread") is not None:
             observe(t, random.Random(case["preread"]))
@@ -272,7 +294,7 @@ def evaluate(ctx, case, tags=(), nontrivial=True):
         ctx.fail({"case": case}, "history.valid_operation_refused", tuple(tags) + ("history", core.err_name(e)))
         return None, None
     before, bad0 = observe(twin)
-    by_before = [(label, observe(x)[0]) for label, x in twin_by]
+    by_before = [(label, snap) for label, _, snap in twin_by]
     t, bystanders = build_chain(case)
     layout_tag(ctx, t)
     rec = {}
@@ -291,10 +313,10 @@ def evaluate(ctx, case, tags=(), nontrivial=True):
                 result["detail"] = type(e).__name__
     after, bad2 = observe(t, order_rng)
     by_bad = []
-    for (label, x), (_, was) in zip(bystanders, by_before):
+    for (label, x, _), (_, was) in zip(bystanders, by_before):
         now, bad = observe(x)
         if bad or now != was:
-            by_bad.append((label, bad or ["content changed"]))
+            by_bad.append((label, bad or ["content changed since the table was made"]))
     req = {k: v for k, v in op.items() if k not in ("other", "other_route", "other_containers", "f", "style",
                                                     "order_type")}
     req["table"] = before
@@ -328,6 +350,8 @@ def evaluate(ctx, case, tags=(), nontrivial=True):
         ctx.fail(full, "bystander.unchanged_and_coherent", tags + (label,) + tuple(bad))
     if bystanders:
         ctx.count("bystanders=%d" % min(len(bystanders), 4))
+    if rec.get("argument_mutated"):
+        ctx.fail(full, "argument.left_as_given", tags + (rec["argument_mutated"],))
     if case.get("profile"):
         ctx.count("profile=empty:%s" % case["profile"])
     rep = ctx.driver.ask(req)
@@ -507,7 +531,7 @@ def gen_history(ctx, rng, spec, route, max_len, containers=None):
         return hist
     for _ in range(n):
         k = rng.choice(["sort_order", "sort_order", "transpose", "update_ids", "copy", "sort", "filter_keep",
-                        "add_metadata"])
+                        "add_metadata", "add_metadata", "del_metadata", "derive", "derive"])
         axis = rng.choice(AX)
         cur = [str(i) for i in t.ids(axis=axis)]
         if k == "filter_keep" and len(cur) < 2:
@@ -523,11 +547,37 @@ def gen_history(ctx, rng, spec, route, max_len, containers=None):
         elif k == "filter_keep":
             op = {"op": k, "ids": random_perm(rng, cur)[:-1], "axis": axis}
         elif k == "add_metadata":
-            op = {"op": k, "ids": [i for i in cur if rng.random() < 0.7], "axis": axis}
+            md = t.metadata(axis=axis)
+            keys = sorted({kk for e in md for kk in e}) if md is not None else []
+            # a new category, or an existing one overwritten
+            op = {"op": k, "ids": [i for i in cur if rng.random() < 0.7], "axis": axis,
+                  "key": rng.choice(keys) if keys and rng.random() < 0.5 else "added"}
+        elif k == "del_metadata":
+            md = t.metadata(axis=axis)
+            keys = sorted({kk for e in md for kk in e}) if md is not None else []
+            if not keys:
+                continue
+            op = {"op": k, "keys": [rng.choice(keys)], "axis": axis}
+        elif k == "derive":
+            dk = rng.choice(["sort_order", "sort", "align_to", "transpose", "copy"])
+            if dk == "sort_order":
+                by = {"op": dk, "order": random_perm(rng, cur), "axis": axis}
+            elif dk == "sort":
+                by = {"op": dk, "f": rng.choice(["default", "reverse"]), "axis": axis}
+            elif dk == "align_to":
+                by = {"op": dk, "axis": "both",
+                      "other": gen_other(rng, [str(i) for i in t.ids(axis="observation")], [str(i) for i in t.ids()],
+                                         ("permuted", "permuted"))}
+            else:
+                by = {"op": dk}
+            op = {"op": "derive", "by": by}
         else:
             op = {"op": k}
         try:
-            t = apply_op(t, op)
+            if op["op"] == "derive":
+                apply_op(t, op["by"])
+            else:
+                t = apply_op(t, op)
         except Exception as e:  # noqa
             ctx.fail({"case": mk_case(spec, route, hist, op)}, "history.valid_operation_refused",
                      ("history", op["op"], core.err_name(e)))
@@ -629,7 +679,8 @@ def exhaustive_perms(ctx, specs, routes):
 def op_stream(ctx, n, max_dim):
     rng = ctx.rng
     for it in range(n):
-        classes = rng.choice([("count",), ("count", "dyadic"), ("count", "neg", "dyadic"), ("big", "tiny", "count")])
+        classes = rng.choice([("count",), ("count", "dyadic"), ("count", "neg", "dyadic"), ("big", "tiny", "count"),
+                              ("bits", "tiny", "big")])
         spec = core.gen_spec(rng, max_n=max_dim, max_m=max_dim, classes=classes,
                              alphabet=rng.choice(["mixed", "mixed", "ascii"]), md=rng.random() < 0.8)
         if rng.random() < 0.15:
@@ -643,6 +694,8 @@ def op_stream(ctx, n, max_dim):
             odd_id_text(rng, spec)
         if rng.random() < 0.12:
             share_labels(rng, spec)
+        if rng.random() < 0.15:
+            odd_unicode_ids(rng, spec)
         route = rng.choice(core.ROUTES)
         containers = gen_containers(rng) if rng.random() < 0.5 else None
         hist = gen_history(ctx, rng, spec, route, 3, containers)
@@ -819,14 +872,16 @@ def wide_stream(ctx, sizes):
             r2, _ = evaluate(ctx, back, ("wide", "inverse"))
             if r2 is not None:
                 check_restored(ctx, back, t0_obs, r2, "sort_order_then_inverse")
-        for f in ("default", "sorted"):
+        big = n_axis > 256 and ctx.quick()      # the largest tables of a quick run get the shorter programme
+        for f in (("default",) if big else ("default", "sorted")):
             # from the numeric order and from a shuffled one
-            evaluate(ctx, mk_case(spec, route, [], {"op": "sort", "f": f, "axis": wax}, poke, cont), ("wide",))
+            if not big:
+                evaluate(ctx, mk_case(spec, route, [], {"op": "sort", "f": f, "axis": wax}, poke, cont), ("wide",))
             evaluate(ctx, mk_case(spec, route, [case["op"]], {"op": "sort", "f": f, "axis": wax}, poke, cont), ("wide",))
         other = gen_other(rng, spec["obs"], spec["samp"], ("permuted", "permuted"))
-        for a in ("both", "detect", wax):
+        for a in ((rng.choice(["both", "detect", wax]),) if big else ("both", "detect", wax)):
             evaluate(ctx, mk_case(spec, route, [], {"op": "align_to", "other": other, "axis": a}, poke, cont), ("wide",))
-        if k % 2 == 0:
+        if k % 2 == 0 and not big:
             evaluate(ctx, mk_case(spec, route, [case["op"]], {"op": "transpose"}, poke, cont), ("wide",))
             # after a transpose the long axis is the other one
             evaluate(ctx, mk_case(spec, route, [{"op": "transpose"}],
@@ -834,7 +889,171 @@ def wide_stream(ctx, sizes):
         evaluate(ctx, mk_case(spec, route, [case["op"]],
                               {"op": "update_ids", "id_map": gen_map(rng, ids, rng.choice(["lengthen", "cycle"])),
                                "axis": wax, "strict": False, "inplace": k % 2 == 0}, poke, cont), ("wide",))
-        ctx.count("wide-axis-length=%s" % ("64-127" if n_axis < 128 else "128-255" if n_axis < 256 else ">=256"))
+        ctx.count("wide-axis-length=%s" % ("64-127" if n_axis < 128 else "128-255" if n_axis < 256 else
+                                           "256-511" if n_axis < 512 else ">=512"))
+
+
+def metadata_aliasing_stream(ctx, specs):
+    """a table is derived from one that has metadata; then the metadata of ONE of the two is edited in place
+    (category added, overwritten, deleted); the other must keep every entry it had when it was made"""
+    rng = ctx.rng
+    for spec in specs:
+        for dk in ("sort_order", "sort", "align_to", "transpose", "copy", "update_ids"):
+            for ax in AX:
+                ids = spec["obs"] if ax == "observation" else spec["samp"]
+                md = spec["omd" if ax == "observation" else "smd"]
+                keys = sorted({k for e in (md or []) for k in e})
+                dax = rng.choice(AX)
+                dids = spec["obs"] if dax == "observation" else spec["samp"]
+                if dk == "sort_order":
+                    by = {"op": dk, "order": random_perm(rng, dids), "axis": dax}
+                elif dk == "sort":
+                    by = {"op": dk, "f": "reverse", "axis": dax}
+                elif dk == "align_to":
+                    by = {"op": dk, "other": gen_other(rng, spec["obs"], spec["samp"], ("permuted", "permuted")),
+                          "axis": "both"}
+                elif dk == "update_ids":
+                    by = {"op": dk, "id_map": gen_map(rng, dids, "lengthen"), "axis": dax, "strict": False,
+                          "inplace": False}
+                else:
+                    by = {"op": dk}
+                edits = [{"op": "add_metadata", "ids": list(ids), "axis": ax, "key": "added"}]
+                if keys:
+                    edits.append({"op": "add_metadata", "ids": list(ids)[:2], "axis": ax, "key": keys[0]})
+                    edits.append({"op": "del_metadata", "keys": [keys[-1]], "axis": ax})
+                for e in edits:
+                    if dk in ("transpose",):
+                        e = dict(e)          # IDs of `ax` sit on the other axis of the transposed table
+                    # (a) the source is edited after the derivation  (b) the derived table is edited
+                    evaluate(ctx, mk_case(spec, "dense", [{"op": "derive", "by": by}, e], {"op": "copy"}),
+                             ("metadata-aliasing", "edit-source", "derived-by=" + dk))
+                    if dk != "transpose":
+                        evaluate(ctx, mk_case(spec, "dense", [by, e], {"op": "copy"}),
+                                 ("metadata-aliasing", "edit-derived", "derived-by=" + dk))
+                    ctx.count("metadata-aliasing=%s" % dk)
+
+
+def degenerate_shape_stream(ctx):
+    """tables with an axis without IDs (built so, or emptied by a filter): outside the property's 1..N x 1..M
+    domain as stated, but every operation is defined on them and the theorems cover them (`valid` admits them)"""
+    rng = ctx.rng
+    three = ["s1", "s10", "s2"]
+    specs = [
+        {"obs": [], "samp": list(three), "rows": [], "omd": None, "smd": [{"k": "md-" + i} for i in three], "type": None},
+        {"obs": ["o2", "o1"], "samp": [], "rows": [[], []], "omd": [{"k": "md-o2"}, {"k": "md-o1"}], "smd": None,
+         "type": "OTU table"},
+        {"obs": [], "samp": [], "rows": [], "omd": None, "smd": None, "type": None},
+    ]
+    full = {"obs": ["o2", "o1"], "samp": list(three), "rows": [[1.0, 0.0, 2.0], [0.0, 3.0, 4.0]],
+            "omd": [{"k": "md-o2"}, {"k": "md-o1"}], "smd": [{"k": "md-" + i} for i in three], "type": None}
+    cases = [(sp, []) for sp in specs]
+    cases.append((full, [{"op": "filter_keep", "ids": [], "axis": "observation"}]))
+    cases.append((full, [{"op": "filter_keep", "ids": [], "axis": "sample"}]))
+    for spec, hist in cases:
+        for route in ("dense", "csc"):
+            base = mk_case(spec, route, hist, {"op": "copy"})
+            t0 = safe_receiver(ctx, base, ("degenerate-shape",))
+            if t0 is None:
+                continue
+            t0_obs = observe(t0)[0]
+            ids = {ax: [str(i) for i in t0.ids(axis=ax)] for ax in AX}
+            ops = [{"op": "transpose"}, {"op": "copy"}]
+            for ax in AX:
+                ops.append({"op": "sort_order", "order": random_perm(rng, ids[ax]), "axis": ax})
+                ops.append({"op": "sort", "f": rng.choice(["default", "reverse"]), "axis": ax})
+                if ids[ax]:
+                    for inplace in (True, False):
+                        ops.append({"op": "update_ids", "id_map": gen_map(rng, ids[ax], "lengthen"), "axis": ax,
+                                    "strict": False, "inplace": inplace})
+                        ops.append({"op": "update_ids", "id_map": gen_map(rng, ids[ax], "cycle"), "axis": ax,
+                                    "strict": True, "inplace": inplace})
+            other = dict(spec if not hist else {"obs": ids["observation"], "samp": ids["sample"], "rows": [
+                [0.0] * len(ids["sample"])] * len(ids["observation"]), "type": None}, omd=None, smd=None)
+            other = dict(other, obs=random_perm(rng, ids["observation"]), samp=random_perm(rng, ids["sample"]))
+            for a in ALIGN_AXES:
+                ops.append({"op": "align_to", "other": other, "axis": a})
+            for op in ops:
+                r, _ = evaluate(ctx, mk_case(spec, route, hist, op), ("degenerate-shape",), nontrivial=False)
+                if op["op"] == "transpose" and r is not None:
+                    r2, _ = evaluate(ctx, mk_case(spec, route, hist + [op], {"op": "transpose"}),
+                                     ("degenerate-shape", "transpose-twice"), nontrivial=False)
+                    if r2 is not None:
+                        check_restored(ctx, mk_case(spec, route, hist + [op], {"op": "transpose"}), t0_obs, r2,
+                                       "transpose_twice")
+            ctx.count("degenerate-shape=%dx%d" % (len(ids["observation"]), len(ids["sample"])))
+
+
+def unicode_stream(ctx, n_nasty):
+    """IDs that are different texts although they look or normalise alike: NFC and NFD spellings of one text on ONE
+    axis (core.twin_ids), texts with '%', quotes, U+2028/2029/0085, form feed, braces, '#', blanks
+    (core.NASTY_TEXTS); all permutations of short axes, sort, align_to, renaming one spelling into another text,
+    renaming onto the twin spelling, transpose"""
+    rng = ctx.rng
+    axes = []
+    for pair in core.NORMALISATION_PAIRS[: (2 if ctx.quick() else len(core.NORMALISATION_PAIRS))]:
+        axes.append([pair[0], pair[1], "tea"])
+    axes.append(core.twin_ids(rng, 2))
+    for _ in range(n_nasty):
+        axes.append(rng.sample(core.NASTY_TEXTS, 3))
+    for k, ids in enumerate(axes):
+        ids = list(ids)
+        for wax in AX:
+            n = len(ids)
+            oth = ["o-%s" % x for x in ids[:2]] if k % 2 else ["q1", "q2"]
+            obs, samp = (oth, ids) if wax == "sample" else (ids, oth)
+            rows = [[float(1 + i * len(samp) + j) if (i + j) % 3 else 0.0 for j in range(len(samp))]
+                    for i in range(len(obs))]
+            spec = {"obs": obs, "samp": samp, "rows": rows, "omd": [{"who": "o:" + x, "text": x} for x in obs],
+                    "smd": [{"who": "s:" + x} for x in samp], "type": None}
+            cont = gen_containers(rng) if k % 2 else None
+            t0_obs = observe(build_table(spec, "dense", cont))[0]
+            perms = list(itertools.permutations(ids)) if n <= 3 else rng.sample(list(itertools.permutations(ids)), 6)
+            for p in perms:
+                case = mk_case(spec, "dense", [], {"op": "sort_order", "order": list(p), "axis": wax}, None, cont)
+                r, _ = evaluate(ctx, case, ("unicode",))
+                if r is not None:
+                    back = mk_case(spec, "dense", [case["op"]], {"op": "sort_order", "order": ids, "axis": wax}, None, cont)
+                    r2, _ = evaluate(ctx, back, ("unicode", "inverse"))
+                    if r2 is not None:
+                        check_restored(ctx, back, t0_obs, r2, "sort_order_then_inverse")
+            for f in ("default", "reverse"):
+                evaluate(ctx, mk_case(spec, "csc", [], {"op": "sort", "f": f, "axis": wax}, None, cont), ("unicode",))
+            other = gen_other(rng, obs, samp, ("permuted", "permuted"))
+            for a in ALIGN_AXES:
+                evaluate(ctx, mk_case(spec, "dense", [], {"op": "align_to", "other": other, "axis": a}, None, cont),
+                         ("unicode",))
+            evaluate(ctx, mk_case(spec, "dense", [], {"op": "transpose"}, None, cont), ("unicode",))
+            evaluate(ctx, mk_case(spec, "dense", [{"op": "transpose"}],
+                                  {"op": "sort_order", "order": list(perms[-1]),
+                                   "axis": AX[1 - AX.index(wax)]}, None, cont), ("unicode",))
+            maps = [[[ids[0], ids[0] + "_much_longer_id"]],                  # one spelling renamed, its twin kept
+                    [[ids[0], ids[1]], [ids[1], ids[0]]],                    # the two spellings change places
+                    [[ids[0], ids[1]]],                                      # onto the twin: a collision
+                    [[i, rng.choice(core.NASTY_TEXTS) + str(j)] for j, i in enumerate(ids)]]
+            for m in maps:
+                for strict in (True, False):
+                    for inplace in (True, False):
+                        evaluate(ctx, mk_case(spec, "dense", [], {"op": "update_ids", "id_map": m, "axis": wax,
+                                                                  "strict": strict, "inplace": inplace}, None, cont),
+                                 ("unicode",))
+            ctx.count("unicode-axis=%s" % ("twins" if k <= len(axes) - n_nasty - 1 else "nasty"))
+
+
+def odd_unicode_ids(rng, spec):
+    """put canonically equivalent twins / nasty texts among the IDs of a random spec"""
+    for key in ("obs", "samp"):
+        ids = spec[key]
+        if rng.random() < 0.5:
+            new = core.twin_ids(rng, 1) if len(ids) >= 2 and rng.random() < 0.6 else [rng.choice(core.NASTY_TEXTS)]
+            pos = rng.sample(range(len(ids)), min(len(new), len(ids)))
+            for p_, x in zip(pos, new):
+                if x not in ids:
+                    ids[p_] = x
+    for key in ("omd", "smd"):
+        if spec[key] is not None and rng.random() < 0.5:
+            for e in spec[key]:
+                if e and rng.random() < 0.5:
+                    e["note"] = rng.choice(core.NASTY_TEXTS + [a for pr in core.NORMALISATION_PAIRS for a in pr])
 
 
 def container_stream(ctx, specs):
@@ -934,12 +1153,16 @@ def run(ctx):
     fixed_corpus(ctx)
     aliasing_stream(ctx, specs[:2] if quick else specs)
     container_stream(ctx, specs[:1] if quick else specs[:3])
+    metadata_aliasing_stream(ctx, [specs[0]] if quick else [specs[0], specs[2]])
+    degenerate_shape_stream(ctx)
+    unicode_stream(ctx, 1 if quick else 6)
     rng = ctx.rng
     if quick:
-        wide_stream(ctx, [rng.randint(129, 200), rng.randint(257, 300)])
+        wide_stream(ctx, [rng.randint(129, 200), rng.randint(257, 300), rng.randint(513, 560)])
     else:
         wide_stream(ctx, [rng.randint(64, 127), rng.randint(128, 140), rng.randint(129, 255), rng.randint(256, 300),
-                          rng.randint(257, 400), 128, 256, 64] + [rng.randint(130, 320) for _ in range(8)])
+                          rng.randint(257, 400), 128, 256, 64, 512, rng.randint(513, 700), 1024] +
+                    [rng.randint(130, 320) for _ in range(6)])
     # shared labels on both axes: all pairs of initial orders of 3 labels; a sample of the 4-label ones
     l3 = ["taxon2", "taxon10", "taxon1"]
     cooccurrence_stream(ctx, l3, list(itertools.permutations(l3)), ["default", "reverse"] if quick else COOC_FS, "cooccurrence")
@@ -951,8 +1174,8 @@ def run(ctx):
     exhaustive_perms(ctx, specs[:3] if quick else specs, routes if not quick else routes[:2])
     ctx.exhaustive = False
     if quick:
-        op_stream(ctx, 430, 6)
-        op_stream(ctx, 140, 9)
+        op_stream(ctx, 310, 6)
+        op_stream(ctx, 90, 9)
     else:
         op_stream(ctx, 11000, 6)
         op_stream(ctx, 6000, 12)
